@@ -2,11 +2,44 @@
    known_findings.json): a found block that passes the node's own full validation becomes part of the served chain
    state (the head, if it extends the head), is written to the store and is broadcast exactly once; an invalid one
    changes nothing.  That every assembled block with id below target IS valid, pays exactly subsidy + fees and has a
-   timestamp later than its parent is tied by the check (real MinerWatcher + real validators + extracted
-   construct_block_for_mining); the general assembly-validity theorem is not proved yet (DESIGN.md section 8). *)
-From Coq Require Import NArith List Lia.
-From SkV Require Import NodeModel NodeProofs.
-Import ListNotations.
+   timestamp later than its parent is C12_assembly_valid / C12_reward_exact / C12_time below (over the Validate model,
+   whose construct_block_for_mining is compared byte for byte with the implementation's candidate by the check). *)
+From stdpp Require Import gmap.
+From Coq Require Import NArith ZArith List Lia.
+From SkV Require Import Bytes Codec Ledger ChainState Pow Validate ChainDefs AssemblyProofs.
+From SkV Require NodeModel NodeProofs.
+Import NodeModel NodeProofs.
+
+(* every candidate the node assembles from its head and an admissible pool (C13's invariant) passes the node's own
+   full validation once its id is below target -- for all hash/signature functions, parameters, states, pools, keys,
+   nonces and clock values satisfying the stated side conditions (block fits, reward data fits, timestamp after the
+   parent's and at most 30 s ahead of the clock: mining.py uses max(now, parent+1), see C12_time and the known finding
+   for a clock more than 29 s behind the head) *)
+Theorem C12_assembly_valid : forall sha scrypt blake verify P s others pk ts data nonce b now cur prev u,
+  construct_block_for_mining sha scrypt blake P s others pk ts data nonce = Some b ->
+  cs_cur s = Some cur -> cs_blocks s !! cur = Some prev -> cs_utxo s !! cur = Some u -> is_zero32 cur = false ->
+  Forall (fun t => v_noncb_by_itself P t = Ok tt) others ->
+  Forall (fun t => v_noncb_in_state verify u t = Ok tt) others ->
+  nodup_keys [] (concat (map tx_refs others)) = true -> nodup_bytes [] (map (tx_id sha) others) = true ->
+  (N.of_nat (length (enc_block b)) <= p_max_block P)%N -> (N.of_nat (length data) <= p_max_cbdata P)%N ->
+  (b_time prev < ts)%N -> (ts <= now + p_max_future P)%N ->
+  bytes_ltb (block_id sha b) (b_target b) = true -> FV P b ->
+  exists s', add_block sha scrypt blake verify P s b now = Ok s'.
+Proof. exact assembly_valid. Qed.
+
+Theorem C12_reward_exact : forall sha scrypt blake P s others pk ts data nonce b cur u,
+  construct_block_for_mining sha scrypt blake P s others pk ts data nonce = Some b ->
+  cs_cur s = Some cur -> cs_utxo s !! cur = Some u ->
+  exists cb fees, b_txs b = cb :: others /\ block_fees u others = Some fees /\
+    tx_outputs cb = [mkOutput (Z.to_N (Z.of_N (get_block_subsidy P (b_height b)) + fees)) pk] /\
+    (0 <= Z.of_N (get_block_subsidy P (b_height b)) + fees)%Z.
+Proof. exact assembly_reward_exact. Qed.
+
+Theorem C12_assembly_header : forall sha scrypt blake P s others pk ts data nonce b cur prev,
+  construct_block_for_mining sha scrypt blake P s others pk ts data nonce = Some b ->
+  cs_cur s = Some cur -> cs_head s = Some prev ->
+  b_height b = (b_height prev + 1)%N /\ b_time b = ts /\ b_prev b = cur /\ s_nonce (h_summary (b_header b)) = nonce.
+Proof. exact assembly_header. Qed.
 
 Theorem C12_adoption : forall tx_valid_at s b s' o,
   handle_mined tx_valid_at s b true = (s', o) ->
@@ -28,6 +61,9 @@ Proof. exact mined_invalid_noop. Qed.
 Theorem C12_time : forall now parent_ts : N, (parent_ts < N.max now (parent_ts + 1))%N.
 Proof. intros. lia. Qed.
 
+Print Assumptions C12_assembly_valid.
+Print Assumptions C12_reward_exact.
+Print Assumptions C12_assembly_header.
 Print Assumptions C12_adoption.
 Print Assumptions C12_adopted_as_head_when_extending.
 Print Assumptions C12_invalid_found_block_noop.
